@@ -10,7 +10,7 @@ use std::collections::BTreeMap;
 use std::time::{Duration, SystemTime};
 
 use adsb_deku::{Frame, ICAO};
-use rsadsb_common::{Added, Airplanes};
+use rsadsb_common::Airplanes;
 use serde::{Deserialize, Serialize};
 use serde_json::{json, Value};
 use simcore::kproto::*;
@@ -178,6 +178,14 @@ pub fn generate(rng: &mut Rng, fault_free: bool) -> K18 {
         let mut ctr = 0u32;
         let mut odd = rng.coin();
         let cs = format!("AC{}{}", (b'A' + slot as u8) as char, rng.below(90) + 10);
+        if !fault_free && rng.chance(0.35) {
+            // the first thing heard from some aircraft is a message type the tracker only counts
+            // (status, target state, operational status, surface position, no-position)
+            let tc = *rng.pick(&[0u8, 5, 8, 28, 29, 31, 31]);
+            let payload = if tc == 31 { rng.next_u64() & 0x0000_33FF_FFFF_FFFF & !(0b11u64 << 46) & !(0b11u64 << 42) & 0x0007_FFFF_FFFF_FFFF } else { rng.next_u64() };
+            lines.push((t, wire::hex(&wire::df17(5, addr, wire::me_raw(tc, payload)))));
+            t += 150_000 + rng.below(250_000);
+        }
         while t < to && lines.len() < if deep { 400 } else { 120 } {
             let me = match ctr % 4 {
                 0 => wire::me_identification(4, 0, &cs),
@@ -609,11 +617,12 @@ pub fn execute(sc: &K18) -> Outcome {
                     consumed += nl + 1;
                     if let Some(bytes) = super::c16::well_formed_frame(line) {
                         if let Ok(f) = Frame::from_bytes(&bytes) {
-                            let added = tr.action(f, sc.rx, 500.0);
-                            if added == Added::Yes {
-                                total_added += 1;
-                            }
-                            most = most.max(tr.len() as u32);
+                            // "newly added" is read off the tracked set itself (a key that was not
+                            // there before the frame), not off the tracker's own `Added` answer
+                            let before: Vec<[u8; 3]> = tr.keys().map(|k| k.0).collect();
+                            let _ = tr.action(f, sc.rx, 500.0);
+                            total_added += tr.keys().filter(|k| !before.contains(&k.0)).count() as u32;
+                            most = most.max(tr.keys().count() as u32);
                         }
                     }
                 }
@@ -631,7 +640,7 @@ pub fn execute(sc: &K18) -> Outcome {
                 let (tab_now, sel_now) = last_frame_k.and_then(|k| shown.get(&k).cloned()).unwrap_or(("other", None));
                 if json.contains("\"code\":\"Enter\"") {
                     centred = match (tab_now, sel_now) {
-                        ("airplanes", Some(icao)) if tr.aircraft_details(parse_addr(&icao)).is_some() => Some((icao, 0)),
+                        ("airplanes", Some(icao)) if tr.get(parse_addr(&icao)).map(|st| st.coords.position.is_some() && st.coords.kilo_distance.is_some() && st.coords.altitudes.iter().all(|r| r.map(|r| r.alt.is_some()).unwrap_or(false))).unwrap_or(false) => Some((icao, 0)),
                         ("airplanes", _) => centred,
                         _ => None, // Enter on Map / Coverage resets the view
                     };
@@ -663,11 +672,16 @@ pub fn execute(sc: &K18) -> Outcome {
                 }
                 let mut ac = BTreeMap::new();
                 for key in tr.keys() {
-                    if let Some(d) = tr.aircraft_details(*key) {
-                        ac.insert(format!("{:02x}{:02x}{:02x}", key.0[0], key.0[1], key.0[2]), (tr.get(*key).unwrap().callsign.clone(), d.position.latitude, d.position.longitude));
+                    // drawable = the record has a position, a distance and both stored reports
+                    // carry an altitude (with only one the statement leaves the label open)
+                    let st = tr.get(*key).unwrap();
+                    let c = &st.coords;
+                    let both_alts = c.altitudes.iter().all(|r| r.map(|r| r.alt.is_some()).unwrap_or(false));
+                    if let (Some(p), Some(_), true) = (c.position, c.kilo_distance, both_alts) {
+                        ac.insert(format!("{:02x}{:02x}{:02x}", key.0[0], key.0[1], key.0[2]), (st.callsign.clone(), p.latitude, p.longitude));
                     }
                 }
-                snaps.insert(*k, RefSnap { table: table_of(&tr), len: tr.len(), total_added, most, ac });
+                snaps.insert(*k, RefSnap { table: table_of(&tr), len: tr.keys().count(), total_added, most, ac });
                 toggle_at_frame.insert(*k, (toggles["l"], toggles["n"], toggles["i"]));
                 ev_count_at_frame.insert(*k, evs.len());
                 last_frame_k = Some(*k);
